@@ -63,9 +63,6 @@ add("alias-outermost-first", "evaluate.go", "\t\tfor i := len(opts.withLocalVari
 add("map-default-binds-value", "evaluate.go",
     "\t\t\t\t\tinnerOpt = append(innerOpt, WithLocalVariable(expression.NameBinding.Default, nil, key.Interface()))",
     "\t\t\t\t\tinnerOpt = append(innerOpt, WithLocalVariable(expression.NameBinding.Default, append(append([]string{}, expression.Selector.Path...), key.Interface().(string)), nil))", ["C06", "C01"])
-add("quant-no-early-exit", "evaluate.go",
-    "\t\t\tif (result && expression.Op == grammar.CollectionOpAny) || (!result && expression.Op == grammar.CollectionOpAll) {\n\t\t\t\treturn result, nil\n\t\t\t}",
-    "\t\t\tif (result && expression.Op == grammar.CollectionOpAny) || (!result && expression.Op == grammar.CollectionOpAll) {\n\t\t\t\tdefer func() {}()\n\t\t\t\tearly, earlyRes = true, result\n\t\t\t}", [])
 add("unknown-applied-to-out-of-range", "evaluate.go",
     "\t\tif errors.Is(err, pointerstructure.ErrNotFound) {",
     "\t\tif errors.Is(err, pointerstructure.ErrNotFound) || errors.Is(err, pointerstructure.ErrOutOfRange) {", ["C05", "C01"])
